@@ -248,39 +248,23 @@ Proof. exact @fms_spec. Qed.
 Print Assumptions C11_flat_map_stream.
 
 (* filter_map_async: f a = (polls the future stays pending, its output); no item is lost or
-   duplicated across those Pendings; size_hint is right only while no item is in flight *)
-Theorem C11_filter_map_async_partial : forall (A B : Type) (uh : script A -> hintT)
+   duplicated across those Pendings; size_hint counts the item of the in-flight future
+   (repaired in /repo b3ec35f8b2d; before, the upper bound was one too small) *)
+Theorem C11_filter_map_async : forall (A B : Type) (uh : script A -> hintT)
     (f : A -> nat * option B), truthful uh ->
-  (forall st, exists st', runs_to (fma_m uh f) st (fma_ref f st) st') /\
-  (forall st n, exists rest, fma_ref f st = emitted (polls (fma_m uh f) n st) ++ rest) /\
-  (forall st s', fused_b (snd st) = true -> pull1 (fma_m uh f) st = (Ended, s') ->
-                 ended_forever (fma_m uh f) s') /\
-  (forall st, fut_out (fst st) = [] -> hint_ok (hint (fma_m uh f) st) (len (fma_ref f st))).
-Proof. exact @fma_spec_partial. Qed.
-Print Assumptions C11_filter_map_async_partial.
-
-(* FINDING: with an item in flight the reported upper bound is one too small *)
-Theorem C11_filter_map_async_hint_refuted :
-  exists (uh : script N -> hintT) (f : N -> nat * option N) (st : fma_st N N),
-    truthful uh /\ (exists st0, st = snd (pull1 (fma_m uh f) st0)) /\
-    ~ hint_ok (hint (fma_m uh f) st) (len (fma_ref f st)).
-Proof. exact fma_hint_refuted. Qed.
-Print Assumptions C11_filter_map_async_hint_refuted.
+  C11_spec (fma_m uh f) always (fun st => fused_b (snd st) = true)
+           (fun st => (match fst st with Some (_, Some b) => [b] | _ => [] end)
+                      ++ filter_map_ref (fun a => snd (f a)) (items (snd st))).
+Proof. exact @fma_spec. Qed.
+Print Assumptions C11_filter_map_async.
 
 (* stream_ready: a Pending stream is reported as the end: items = those before the first
-   Pending / end; only the upper bound of the stream's size_hint carries over *)
-Theorem C11_stream_ready_partial : forall (A : Type) (uh : script A -> hintT), truthful uh ->
-  (forall l, exists l', runs_to (sready_m uh) l (items_now l) l') /\
-  (forall l, match snd (hint (sready_m uh) l) with Some u => len (items_now l) <= u | None => True end).
-Proof. intros A uh T. split; [apply sready_runs|apply sready_hint_upper; exact T]. Qed.
-Print Assumptions C11_stream_ready_partial.
-
-(* FINDING: the lower bound does not *)
-Theorem C11_stream_ready_hint_refuted :
-  exists (uh : script N -> hintT) (l : script N),
-    truthful uh /\ ~ hint_ok (hint (sready_m uh) l) (len (items_now l)).
-Proof. exact sready_hint_lower_refuted. Qed.
-Print Assumptions C11_stream_ready_hint_refuted.
+   Pending / end; size_hint = (0, stream upper) (repaired in /repo 037f9db078c; before, the
+   stream's lower bound was forwarded).  No FusedPull impl. *)
+Theorem C11_stream_ready : forall (A : Type) (uh : script A -> hintT), truthful uh ->
+  C11_spec (sready_m uh) always never (fun l => items_now l).
+Proof. exact @sready_spec. Qed.
+Print Assumptions C11_stream_ready.
 
 (* collect, for_each, accumulate_all: polled to completion, the effect has been applied to
    exactly the items before the first end, in order; one Pending per scripted Pending; the pull
@@ -342,7 +326,8 @@ Print Assumptions C11_gen_ok_sound.
 
 (* and complete on the model's traces of the adaptors with a full specification *)
 Theorem C11_adaptors_checker_complete : forall c n,
-  match c with XRelay _ | XFlatMapStream _ _ | XFlattenStream _ => True | _ => False end ->
+  match c with XRelay _ | XStreamReady _ | XFlatMapStream _ _ | XFlattenStream _
+           | XFilterMapAsync _ _ => True | _ => False end ->
   tr_items (xrun c n) <> None -> gen_ok (xref c) (xfused c) (xrun c n) = true.
 Proof. exact xmodel_holds. Qed.
 Print Assumptions C11_adaptors_checker_complete.
